@@ -81,7 +81,7 @@ def sym_ocs_choices(rng):
 
 def mrl_of(history):
     for op in history:
-        if op.get('op') == 'new_file':
+        if op.get('op') == 'new_file' and op.get('fid') == fid_of(history):
             if op.get('sul'):
                 return op['sul'].get('max_record_length', 8192)
             return (op.get('kwargs') or {}).get('max_record_length', 8192)
@@ -99,10 +99,10 @@ def rows_of(history):
 
 
 def fid_of(history):
-    for op in history:
-        if op.get('op') == 'new_file':
-            return op['fid']
-    return 'f0'
+    fids = [op['fid'] for op in history if op.get('op') == 'new_file']
+    if 'f0' in fids or not fids:
+        return 'f0'
+    return fids[-1]
 
 
 def n_flushes(io):
